@@ -259,6 +259,33 @@ def mt4(F, R):
                                 sel[lab[1]] = o[1]
     want = {i: M["partition_table"] + 16 * i for i in range(4)}
     R.require(sel == want, orv, "mbr:slot-selection", "partition slot offsets %s, expected %s" % (sel, want), orv.loc(0))
+    # how the entry is used: parse_volume is reached only under (status & 0x7F) == 0 (0x00 and 0x80 are the valid status bytes),
+    # with the type byte in the accepted set, and is given LE u32 [8..12) as start and [12..16) as length of *that* entry
+    from .mir import strip_refs, subterms
+    pvs = [(b, t) for b, t in orv.calls() if (t.get("callee") or "").endswith("parse_volume")]
+    R.require(len(pvs) == 1, orv, "mbr:parse-site", "expected one parse_volume call in open_raw_volume", orv.loc(0))
+    for b, t in pvs:
+        def status_ok(g):
+            if not (g.kind == "bool" and g.truth is True and g.term[0] == "cmp" and g.term[1] == "Eq" and g.term[3][:2] == ("c", 0)):
+                return False
+            a = g.term[2]
+            if not (a[0] == "bin" and a[1] == "BitAnd"):
+                return False
+            for x, y in ((a[2], a[3]), (a[3], a[2])):
+                if y[:2] == ("c", 0x7F) and x[0] == "place" and any(isinstance(e, tuple) and e[0] == "idx" and e[1][:2] == ("c", M["status"]) for e in x[2]):
+                    return True
+            return False
+        R.require(guarded(orv, b, status_ok)[0], orv, "mbr:status-mask", "a partition is mounted without (status & 0x7F) == 0: 0x00 and 0x80 (active) are the two valid status bytes, anything else must be refused and 0x80 must be accepted", orv.loc(b))
+        types = set()
+        for (gb, gi, g) in all_guards(orv):
+            if g.kind == "value" and orv.unreachable_without(b, [(gb2, gi2) for (gb2, gi2, g2) in all_guards(orv) if g2.kind == "value" and tstr(g2.term) == tstr(g.term)]) and any(isinstance(e, tuple) and e[0] == "idx" and e[1][:2] == ("c", M["type"]) for q in subterms(g.term) if q[0] == "place" for e in q[2]):
+                if b in orv.reach([orv.succ(gb)[gi][0]]):
+                    types.add(g.value)
+        R.require(types == set(M["fat_types"]), orv, "mbr:type-dispatch", "parse_volume is reached for partition types %s, expected %s" % (sorted(types), sorted(M["fat_types"])), orv.loc(b))
+        a1 = tstr(strip_refs(orv.term_of_operand(t["args"][1], b)))
+        a2 = tstr(strip_refs(orv.term_of_operand(t["args"][2], b)))
+        okl = "read_u32(" in a1 and "Range{PARTITION_INFO_LBA_START_INDEX=8, 0xc}" in a1 and "read_u32(" in a2 and "Range{PARTITION_INFO_NUM_BLOCKS_INDEX=0xc, 0x10}" in a2
+        R.require(okl, orv, "mbr:lba-and-length", "parse_volume must get LE u32 [8..12) as start block and [12..16) as block count of the selected entry; got (%s, %s)" % (a1[-70:], a2[-70:]), orv.loc(b))
 
 
 # ---------------------------------------------------------------------------------------
